@@ -1,0 +1,13 @@
+//go:build verif
+
+package vxfw
+
+import "git.sr.ht/~rockorager/vaxis"
+
+// Hook for the verification harness under /verif (property C14). Compiled
+// only with `-tags verif`; it adds an entry point to the unexported render
+// and changes no behaviour.
+
+// VerifC14Render paints the surface tree into win exactly as App.Run does
+// (no focused widget, so no cursor).
+func VerifC14Render(s Surface, win vaxis.Window) { s.render(win, nil) }
